@@ -165,4 +165,5 @@ def main():
         sh("git -C /repo worktree prune")
 
 
-main()
+if __name__ == "__main__":
+    main()
